@@ -1,33 +1,259 @@
-"""probe"""
-from __future__ import annotations
-import struct
-from engine.api import QUICK, REPO, cond, pick
-from harness import _tokens_common as tc
-from vgi_rpc.http.server import _state_token as st
-PROPERTY = "C12"
-ENCODED = []
-BOUNDS = ""; OUTSIDE = ""; ASSUMPTIONS = []
+"""C12 — stream state tokens are unforgeable, identity-bound and opaque.
 
+What the AEAD primitive gives (INT-CTXT + confidentiality of XChaCha20-Poly1305) is *assumed*
+(ideal-AEAD stub, see harness/_tokens_common.py).  What is **decided** is everything the
+repository adds around it:
+
+(a) smt  : `_compute_aad` / `_compute_call_aad` translated from their live source to string
+           terms: equal AAD => equal (authenticated, domain, principal) for all NUL-free domains of
+           any length, and cursor-AAD != call-AAD for all identity pairs (cvc5, unbounded; z3
+           cross-check on lengths <= 8).
+(b) xh   : framing — seal/open round trip of both token kinds with symbolic segments, only under the
+           same key and AAD; for an arbitrary plaintext `_open_*` either raises the HTTP-400 error
+           with a message of the fixed per-kind set or returns segments that re-frame to exactly
+           that plaintext (no slack, no overrun).
+(c) xh   : TTL — rejected <=> ttl > 0 and now - created_at > ttl (integer clock, all 64-bit
+           timestamps), and the seal side stores created_at little-endian in bytes 0..7.
+(d) xh   : resolution order in `_unpack_and_recover_state` / `_resolve_call_from_token` — over all
+           presentations (own / other stream's / other identity's / kind-swapped / version-relabelled /
+           foreign-key / garbage tokens, cold or warm cache): served <=> cursor minted for the
+           requester's identity and its call resolvable; nothing is deserialised, bound or
+           rehydrated before the cursor opened under the requester's AAD (and, on a miss, the call
+           token under the requester's call-AAD with the same call id); every authentication failure
+           gives the same 400.
+(e) xh   : `crypto.seal_bytes/open_bytes` envelope layer over an ideal backend primitive: opens
+           exactly the byte strings it sealed (same key, aad, version byte), SealError otherwise.
+"""
+
+from __future__ import annotations
+
+import struct
+
+from engine.api import cond, pick, task
+from engine.reglob import reglobalize
+
+from harness import _tokens_common as tc
+from vgi_rpc import crypto
+from vgi_rpc.http.server import _app_stream as aps
+from vgi_rpc.http.server import _state_token as st
+from vgi_rpc.rpc import AuthContext
+
+PROPERTY = "C12"
+ENCODED = [st._compute_aad, st._compute_call_aad, *tc.TOKEN_FUNCS, aps._unpack_and_recover_state, aps._resolve_call_from_token, crypto.seal_bytes, crypto.open_bytes]
+BOUNDS = (
+    "(a) all identities, unbounded string lengths; (b) segments <= 3 bytes, keys/AADs <= 2 bytes, arbitrary cursor plaintexts <= 36 bytes, "
+    "arbitrary call plaintexts <= %d bytes; (c) all 64-bit created_at, unbounded integer now/ttl; (d) 2 streams x 4 identities x 6 cursor-slot x 7 call-slot "
+    "presentations x cold/warm cache x fresh/expired clock; (e) payload <= 2 bytes, tampered envelope <= 44 bytes" % pick(46, 47)
+)
+OUTSIDE = (
+    "the AEAD primitive itself (bit flips / truncation of real ciphertexts are rejected by *assumption*); base64 alphabet variants (C decoder); "
+    "zstd frames; float clocks; HTTP status mapping of the raised _RpcHttpError; domains containing NUL; non-UTF-8 type/stream-id segments inside an "
+    "authenticated call-token plaintext (UnicodeDecodeError escapes _open_call_token - unreachable for server-minted plaintexts)"
+)
+ASSUMPTIONS = [
+    *tc.TOKEN_STUBS,
+    "the version byte of crypto's envelope is NOT covered by the AEAD tag (crypto.open_bytes compares it before the tag check): the attacker may relabel a box's version freely; kind separation therefore rests on the AAD prefixes, decided in (a)",
+    "str.encode() (UTF-8) is injective and maps exactly the NUL-free strings to NUL-free byte strings",
+    "int.from_bytes(x.to_bytes(8,'little'),'little') == x for 0 <= x < 2**64 (composition of the seal-side and open-side TTL items)",
+    "(d) uses 4 representative identities (None, unauthenticated-with-fields, ('d','p'), ('','anonymous')); generalisation to all identities is (a)",
+    "expiry and malformed-base64 rejections carry their own fixed messages by design; uniformity is asserted for authentication failures (foreign key / other identity / swapped kind / relabelled / garbage)",
+]
+
+_U64 = 2**64
 _CURSOR_MSGS = ("Malformed state token", "State token signature verification failed", "Malformed token payload", "State token expired")
 _CALL_MSGS = ("Malformed call token", "Call token signature verification failed", "Malformed token payload", "Call token expired")
-_U64 = 2**64
 
-@cond(q=40)
-def cursor_round_trip(state: bytes, call_id: bytes, key: bytes, aad: bytes, created: int, pays: bool) -> bool:
+
+# ---------------------------------------------------------------------------
+# (a) AAD injectivity and kind separation — direct SMT on terms built from the live source
+# ---------------------------------------------------------------------------
+
+
+def _replay_aad(cex: dict) -> dict:
+    x, y = tc.auth_from_json(cex["x"]), tc.auth_from_json(cex["y"])
+    q = cex["q"]
+    if q == "kind":
+        a, b = st._compute_aad(x), st._compute_call_aad(y)
+        if a == b:
+            return {"verdict": "VIOLATION", "replayed": True, "signature": "C12:aad:cursor-equals-call", "detail": f"_compute_aad({x!r}) == _compute_call_aad({y!r}) == {a!r}"}
+        return {"verdict": "INCONCLUSIVE", "detail": "solver witness did not reproduce on the real functions"}
+    fn = st._compute_aad if q == "inj:_compute_aad" else st._compute_call_aad
+    if fn(x) == fn(y) and tc.real_identity(x) != tc.real_identity(y):
+        return {
+            "verdict": "VIOLATION",
+            "replayed": True,
+            "signature": "C12:aad:not-injective",
+            "detail": f"{fn.__name__} maps distinct identities {tc.real_identity(x)!r} and {tc.real_identity(y)!r} to the same AAD {fn(x)!r}",
+        }
+    return {"verdict": "INCONCLUSIVE", "detail": "solver witness did not reproduce on the real functions"}
+
+
+@task(q=40, t=120, encoded=[st._compute_aad, st._compute_call_aad], bound="all identities with NUL-free domain, unbounded lengths (cvc5); z3 cross-check lengths<=8", engine="smt")
+def aad_injective_and_kind_separated(budget: float, replay=None) -> dict:
+    import time
+
+    if replay is not None:
+        return _replay_aad(replay)
+    res: dict = {"queries": 0, "discharged": 0, "solver_s": 0.0, "samples": []}
+    try:
+        val = {f.__name__: tc.validate_identity_translation(f, bytes) for f in (st._compute_aad, st._compute_call_aad)}
+    except tc.Unsupported as e:
+        return {**res, "verdict": "INCONCLUSIVE", "detail": f"construct outside the translator: {e}"}
+    res["translator_validation"] = val
+    if any(v["n_disagree"] for v in val.values()):
+        return {**res, "verdict": "ERROR", "detail": f"source->SMT translation disagrees with the live functions: {val}"}
+    verdicts: dict = {}
+    for sname, S, bound in tc.solvers():
+        x, y = tc.SymAuth(S, "x"), tc.SymAuth(S, "y")
+        queries = []
+        for fn in (st._compute_aad, st._compute_call_aad):
+            queries.append(("inj:" + fn.__name__, [tc.encode_fn(fn, S, x) == tc.encode_fn(fn, S, y), tc.nul_free_domain(S, x), tc.nul_free_domain(S, y), S.Not(tc.same_identity(S, x, y))]))
+        queries.append(("kind", [tc.encode_fn(st._compute_aad, S, x) == tc.encode_fn(st._compute_call_aad, S, y)]))
+        # the NUL restriction of the property is necessary (expected sat: shows the query can fail)
+        queries.append(("sanity:inj-without-nul-restriction", [tc.encode_fn(st._compute_aad, S, x) == tc.encode_fn(st._compute_aad, S, y), S.Not(tc.same_identity(S, x, y))]))
+        for label, cs in queries:
+            s = S.Solver()
+            if sname == "z3":
+                s.set("timeout", int(min(30.0, budget / 4) * 1000))
+                s.add(tc.bounded(S, x, bound), tc.bounded(S, y, bound))
+            else:
+                s.set("tlimit-per", int(min(30.0, budget / 4) * 1000))
+            s.add(*cs)
+            t0 = time.monotonic()
+            r = str(s.check())
+            dt = time.monotonic() - t0
+            res["queries"] += 1
+            res["solver_s"] = round(res["solver_s"] + dt, 3)
+            sample = {"solver": sname, "query": label, "result": r, "solver_s": round(dt, 3)}
+            if r == "sat":
+                try:
+                    m = s.model()
+                    sample["witness"] = {"x": tc.auth_to_json(tc.auth_from_model(S, m, x)), "y": tc.auth_to_json(tc.auth_from_model(S, m, y))}
+                except tc.Unsupported as e:
+                    sample["witness_error"] = str(e)
+            res["samples"].append(sample)
+            verdicts[(sname, label)] = (r, sample)
+            if r == "unsat":
+                res["discharged"] += 1
+    for label in ("inj:_compute_aad", "inj:_compute_call_aad", "kind"):
+        rc, sc = verdicts[("cvc5", label)]
+        rz, sz = verdicts[("z3", label)]
+        for r, smp in ((rc, sc), (rz, sz)):
+            if r == "sat":
+                if "witness" not in smp:
+                    return {**res, "verdict": "INCONCLUSIVE", "detail": f"{label}: sat but witness unusable: {smp.get('witness_error')}"}
+                cex = {"q": label, **smp["witness"]}
+                out = _replay_aad(cex)
+                return {**res, **out, "cex": cex}
+        if rc != "unsat" or rz != "unsat":
+            return {**res, "verdict": "INCONCLUSIVE", "detail": f"{label}: cvc5={rc} z3={rz}"}
+    if verdicts[("cvc5", "sanity:inj-without-nul-restriction")][0] != "sat":
+        return {**res, "verdict": "INCONCLUSIVE", "detail": "sanity query (no NUL restriction) was not satisfiable: encoding suspect"}
+    res["verdict"] = "CONFIRMED"
+    res["detail"] = "equal AAD => equal identity (NUL-free domains), cursor AAD never equals call AAD; without the NUL restriction injectivity fails (as the property anticipates)"
+    return res
+
+
+# ---------------------------------------------------------------------------
+# (b) framing
+# ---------------------------------------------------------------------------
+
+
+def _flat(data: bytes, lo: int, hi: int) -> bytes:
+    """The same bytes as a concrete-length list of symbolic ints (lengths fork, contents stay symbolic)."""
+    n = len(data)
+    for k in range(lo, hi + 1):
+        if n == k:
+            return bytes([data[i] for i in range(k)])
+    raise AssertionError("length outside the stated bound")
+
+
+def _replay_cursor_rt(args: dict) -> str | None:
+    """Real crypto, real zstd, real base64."""
+    key, aad = args["key"], args["aad"]
+    tok = st._seal_cursor_token(args["state"], args["call_id"], key, aad, 7)
+    try:
+        got = st._open_cursor_token(tok, args["key2"], args["aad2"], 0)
+    except Exception as e:  # noqa: BLE001
+        got = e
+    same = args["key2"] == key and args["aad2"] == aad
+    if same and got != (args["state"], args["call_id"]):
+        return f"cursor token does not round-trip: {got!r}"
+    if not same and not isinstance(got, Exception):
+        return f"cursor token sealed under key={key!r} aad={aad!r} opened under key={args['key2']!r} aad={args['aad2']!r}"
+    return None
+
+
+@cond(q=60, t=200, stubs=tc.TOKEN_STUBS, encoded=[st._seal_cursor_token, st._open_cursor_token, st._pack_plaintext, st._unpack_plaintext, st._read_segment],
+      bound="state<=3 bytes, call_id 16 bytes, key/aad<=2 bytes", replay=_replay_cursor_rt, signature=lambda a, c: "C12:cursor:round-trip")
+def cursor_round_trip_only_same_key_and_aad(state: bytes, call_id: bytes, key: bytes, aad: bytes, key2: bytes, aad2: bytes, pays: bool) -> bool:
     """
-    pre: len(state) <= 3 and len(call_id) == 16 and len(key) <= 2 and len(aad) <= 2 and 0 <= created < _U64
+    pre: len(state) <= 3 and len(call_id) == 16 and len(key) <= 2 and len(aad) <= 2 and len(key2) <= 2 and len(aad2) <= 2
     post: _
     """
-    tc.reset(now=created)
+    tc.reset(now=7)
     tc.HOLD["zstd_pays"] = pays
-    tok = tc.seal_cursor_token(state, call_id, key, aad, created)
-    try:
-        s2, c2 = tc.open_cursor_token(tok, key, aad, 0)
-    except Exception:
+    state = _flat(state, 0, 3)
+    call_id = _flat(call_id, 16, 16)
+    tok = tc.seal_cursor_token(state, call_id, key, aad, 7)
+    if not isinstance(tok, tc.Box) or tok.version != st._CURSOR_TOKEN_VERSION:
         return False
-    return s2 == state and c2 == call_id
+    same = key2 == key and aad2 == aad
+    try:
+        s2, c2 = tc.open_cursor_token(tok, key2, aad2, 0)
+    except Exception as e:  # noqa: BLE001
+        return (not same) and tc.http_error_info(e) == (400, "State token signature verification failed")
+    return same and s2 == state and c2 == call_id
 
-@cond(q=60)
+
+def _replay_call_rt(args: dict) -> str | None:
+    segs = (args["cs"], "Té", args["sc"], args["isc"], args["cid"], "ab")
+    tok = st._seal_call_token(segs[0], segs[1], segs[2], segs[3], segs[4], segs[5], b"k" * 32, b"aad", 7)
+    try:
+        got = st._open_call_token(tok, b"k" * 32, b"aad", 0)
+    except Exception as e:  # noqa: BLE001
+        return f"call token does not open: {e!r}"
+    return None if got == segs else f"call token does not round-trip: {got!r}"
+
+
+@cond(q=60, t=200, stubs=tc.TOKEN_STUBS, encoded=[st._seal_call_token, st._open_call_token, st._read_segment], bound="3 byte segments <= 3 bytes each, call_id 16 bytes, fixed type/stream-id strings",
+      replay=_replay_call_rt, signature=lambda a, c: "C12:call:round-trip")
+def call_round_trip(cs: bytes, sc: bytes, isc: bytes, cid: bytes, pays: bool, same_aad: bool) -> bool:
+    """
+    pre: len(cs) <= 3 and len(sc) <= 3 and len(isc) <= 3 and len(cid) == 16
+    post: _
+    """
+    tc.reset(now=7)
+    tc.HOLD["zstd_pays"] = pays
+    cs, sc, isc, cid = _flat(cs, 0, 3), _flat(sc, 0, 3), _flat(isc, 0, 3), _flat(cid, 16, 16)
+    ty, sid = "Té", "ab"
+    tok = tc.seal_call_token(cs, ty, sc, isc, cid, sid, b"k", b"a", 7)
+    if not isinstance(tok, tc.Box) or tok.version != st._CALL_TOKEN_VERSION:
+        return False
+    try:
+        r = tc.open_call_token(tok, b"k", b"a" if same_aad else b"b", 0)
+    except Exception as e:  # noqa: BLE001
+        return (not same_aad) and tc.http_error_info(e) == (400, "Call token signature verification failed")
+    return same_aad and r == (cs, ty, sc, isc, cid, sid)
+
+
+def _replay_cursor_plain(args: dict) -> str | None:
+    """Real functions on the same plaintext, sealed with the real crypto."""
+    data = args["data"]
+    if data[:1] == b"\x01":
+        return None  # needs a zstd body that decompresses to args['zraw']; covered by the harness run only
+    tok = __import__("base64").b64encode(crypto.seal_bytes(data, b"k" * 32, aad=b"a", version=st._CURSOR_TOKEN_VERSION))
+    try:
+        s2, c2 = st._open_cursor_token(tok, b"k" * 32, b"a", 0)
+    except Exception as e:  # noqa: BLE001
+        info = tc.http_error_info(e)
+        return None if info is not None and info[0] == 400 and info[1] in _CURSOR_MSGS else f"_open_cursor_token raised {e!r}"
+    ok = data[:1] == b"\x00" and data[9:] == c2 + struct.pack("<I", len(s2)) + s2 and len(c2) == 16
+    return None if ok else f"_open_cursor_token accepted plaintext {data!r} as {(s2, c2)!r} which does not re-frame to it"
+
+
+@cond(q=60, t=200, stubs=tc.TOKEN_STUBS, encoded=[st._open_cursor_token, st._unpack_plaintext, st._read_segment], bound="any authenticated plaintext <= 36 bytes (raw codec) / any decompressed body <= 32 bytes (zstd codec)",
+      replay=_replay_cursor_plain, signature=lambda a, c: "C12:cursor:parser")
 def cursor_arbitrary_plaintext(data: bytes, zraw: bytes, zok: bool) -> bool:
     """
     pre: len(data) <= 36 and len(zraw) <= 32
@@ -39,50 +265,521 @@ def cursor_arbitrary_plaintext(data: bytes, zraw: bytes, zok: bool) -> bool:
     tok = tc.Box(data, b"k", b"a", st._CURSOR_TOKEN_VERSION)
     try:
         s2, c2 = tc.open_cursor_token(tok, b"k", b"a", 0)
-    except Exception as e:
+    except Exception as e:  # noqa: BLE001
         info = tc.http_error_info(e)
         return info is not None and info[0] == 400 and info[1] in _CURSOR_MSGS
-    if data[:1] == b"\x00":
+    if data[:1] == st._CODEC_RAW:
         plain = data[1:]
-    elif data[:1] == b"\x01" and zok:
+    elif data[:1] == st._CODEC_ZSTD and zok:
         plain = zraw
     else:
         return False
-    return plain[8:] == c2 + struct.pack("<I", len(s2)) + s2 and len(c2) == 16
+    return len(c2) == 16 and plain[8:] == c2 + struct.pack("<I", len(s2)) + s2
 
-@cond(q=60)
-def call_arbitrary_plaintext(data: bytes) -> bool:
-    """
-    pre: len(data) <= 49
-    post: _
-    """
-    tc.reset(now=0)
+
+def _call_plain_ok(data: bytes) -> bool:
     tok = tc.Box(data, b"k", b"a", st._CALL_TOKEN_VERSION)
     try:
         cs, ty, sc, isc, cid, sid = tc.open_call_token(tok, b"k", b"a", 0)
     except UnicodeDecodeError:
+        # non-UTF-8 type / stream-id segment: unreachable for server-minted plaintexts (see OUTSIDE)
         return True
-    except Exception as e:
+    except Exception as e:  # noqa: BLE001
         info = tc.http_error_info(e)
         return info is not None and info[0] == 400 and info[1] in _CALL_MSGS
-    if data[:1] != b"\x00":
+    if data[:1] != st._CODEC_RAW:
         return False
-    plain = data[1:]
-    tb = ty.encode(); sb = sid.encode()
-    return len(cid) == 16 and plain[8:] == cid + struct.pack("<I", len(cs)) + cs + struct.pack("<I", len(tb)) + tb + struct.pack("<I", len(sc)) + sc + struct.pack("<I", len(isc)) + isc + struct.pack("<I", len(sb)) + sb
+    tb, sb = ty.encode(), sid.encode()
+    body = cid + struct.pack("<I", len(cs)) + cs + struct.pack("<I", len(tb)) + tb + struct.pack("<I", len(sc)) + sc + struct.pack("<I", len(isc)) + isc + struct.pack("<I", len(sb)) + sb
+    return len(cid) == 16 and data[9:] == body
 
-@cond(q=60)
-def call_round_trip(cs: bytes, ty: str, sc: bytes, isc: bytes, sid: str, created: int, pays: bool) -> bool:
+
+def _replay_call_plain(args: dict) -> str | None:
+    data = args["raw"]
+    tok = __import__("base64").b64encode(crypto.seal_bytes(data, b"k" * 32, aad=b"a", version=st._CALL_TOKEN_VERSION))
+    try:
+        cs, ty, sc, isc, cid, sid = st._open_call_token(tok, b"k" * 32, b"a", 0)
+    except UnicodeDecodeError:
+        return None
+    except Exception as e:  # noqa: BLE001
+        info = tc.http_error_info(e)
+        return None if info is not None and info[0] == 400 and info[1] in _CALL_MSGS else f"_open_call_token raised {e!r}"
+    tb, sb = ty.encode(), sid.encode()
+    body = cid + struct.pack("<I", len(cs)) + cs + struct.pack("<I", len(tb)) + tb + struct.pack("<I", len(sc)) + sc + struct.pack("<I", len(isc)) + isc + struct.pack("<I", len(sb)) + sb
+    return None if data[:1] == b"\x00" and data[9:] == body else f"_open_call_token accepted plaintext {data!r} whose segments do not re-frame to it"
+
+
+@cond(q=30, t=60, stubs=tc.TOKEN_STUBS, encoded=[st._open_call_token], bound="any authenticated plaintext of 0..44 bytes", replay=_replay_call_plain, signature=lambda a, c: "C12:call:parser")
+def call_plaintext_too_short(raw: bytes) -> bool:
     """
-    pre: len(cs) <= 2 and len(ty) <= 1 and len(sc) <= 2 and len(isc) <= 2 and len(sid) <= 1 and 0 <= created < _U64
+    pre: len(raw) <= 44
+    post: _
+    """
+    tc.reset(now=0)
+    tok = tc.Box(raw, b"k", b"a", st._CALL_TOKEN_VERSION)
+    try:
+        tc.open_call_token(tok, b"k", b"a", 0)
+    except Exception as e:  # noqa: BLE001
+        info = tc.http_error_info(e)
+        return info is not None and info[0] == 400 and info[1] in _CALL_MSGS
+    return False
+
+
+@cond(q=60, t=200, stubs=tc.TOKEN_STUBS, encoded=[st._open_call_token, st._read_segment, st._unpack_plaintext], bound="any authenticated plaintext of exactly 45 bytes (minimal frame)", replay=_replay_call_plain,
+      signature=lambda a, c: "C12:call:parser")
+def call_arbitrary_plaintext_45(raw: bytes) -> bool:
+    """
+    pre: len(raw) == 45
+    post: _
+    """
+    tc.reset(now=0)
+    return _call_plain_ok(_flat(raw, 45, 45))
+
+
+_CP_HI = pick(46, 47)
+
+
+@cond(q=60, t=600, stubs=tc.TOKEN_STUBS, encoded=[st._open_call_token, st._read_segment, st._unpack_plaintext], bound="any authenticated plaintext of 46..%d bytes" % _CP_HI, replay=_replay_call_plain,
+      signature=lambda a, c: "C12:call:parser")
+def call_arbitrary_plaintext_slack(raw: bytes) -> bool:
+    """
+    pre: 46 <= len(raw) <= _CP_HI
+    post: _
+    """
+    tc.reset(now=0)
+    return _call_plain_ok(_flat(raw, 46, _CP_HI))
+
+
+# ---------------------------------------------------------------------------
+# (c) TTL
+# ---------------------------------------------------------------------------
+
+_T8 = tuple[int, int, int, int, int, int, int, int]
+_CID = b"0123456789abcdef"
+
+
+def _replay_ttl(args: dict) -> str | None:
+    """Real crypto and the real clock shifted: created_at = real_now - (now - created)."""
+    import time as _t
+
+    created = sum(t * (256**i) for i, t in enumerate(args["ts"]))
+    age = args["now"] - created
+    ttl = args["ttl"]
+    real_now = int(_t.time())
+    c2 = real_now - age
+    if not 0 <= c2 < 2**64 or abs(age - ttl) <= 2:
+        return None  # cannot be placed on the real clock without racing the second boundary
+    want_reject = ttl > 0 and age > ttl
+    for kind in ("cursor", "call"):
+        if kind == "cursor":
+            tok = st._seal_cursor_token(b"st", _CID, b"k" * 32, b"a", c2)
+            op = lambda: st._open_cursor_token(tok, b"k" * 32, b"a", ttl)  # noqa: E731
+        else:
+            tok = st._seal_call_token(b"c", "T", b"s", b"i", _CID, "sid", b"k" * 32, b"a", c2)
+            op = lambda: st._open_call_token(tok, b"k" * 32, b"a", ttl)  # noqa: E731
+        try:
+            op()
+            rejected = False
+        except Exception:  # noqa: BLE001
+            rejected = True
+        if rejected != want_reject:
+            return f"{kind} token aged {age}s with ttl={ttl} was {'rejected' if rejected else 'accepted'}"
+    return None
+
+
+@cond(q=40, t=120, stubs=tc.TOKEN_STUBS, encoded=[st._open_cursor_token, st._open_call_token], bound="all 64-bit created_at, unbounded int now>=0 and ttl", replay=_replay_ttl, signature=lambda a, c: "C12:ttl:decision")
+def ttl_rejects_iff_older_than_ttl(now: int, ts: _T8, ttl: int, call_kind: bool) -> bool:
+    """
+    pre: all(0 <= t < 256 for t in ts) and 0 <= now
+    post: _
+    """
+    tc.reset(now=now)
+    created = sum(t * (256**i) for i, t in enumerate(ts))
+    want_reject = ttl > 0 and now - created > ttl
+    if call_kind:
+        plain = bytes(ts) + _CID + struct.pack("<I", 1) + b"c" + struct.pack("<I", 1) + b"T" + struct.pack("<I", 1) + b"s" + struct.pack("<I", 1) + b"i" + struct.pack("<I", 3) + b"sid"
+        tok = tc.Box(st._CODEC_RAW + plain, b"k", b"a", st._CALL_TOKEN_VERSION)
+        want_ok = (b"c", "T", b"s", b"i", _CID, "sid")
+        msg = "Call token expired"
+    else:
+        plain = bytes(ts) + _CID + struct.pack("<I", 2) + b"st"
+        tok = tc.Box(st._CODEC_RAW + plain, b"k", b"a", st._CURSOR_TOKEN_VERSION)
+        want_ok = (b"st", _CID)
+        msg = "State token expired"
+    try:
+        r = tc.open_call_token(tok, b"k", b"a", ttl) if call_kind else tc.open_cursor_token(tok, b"k", b"a", ttl)
+    except Exception as e:  # noqa: BLE001
+        return want_reject and tc.http_error_info(e) == (400, msg)
+    return (not want_reject) and r == want_ok
+
+
+@cond(q=30, t=60, stubs=tc.TOKEN_STUBS, encoded=[st._seal_cursor_token, st._seal_call_token, st._mint_cursor_token, st._mint_call_token], bound="all 64-bit created_at / clock values")
+def seal_side_stores_created_at_little_endian(created: int, use_clock: bool) -> bool:
+    """
+    pre: 0 <= created < _U64
     post: _
     """
     tc.reset(now=created)
-    tc.HOLD["zstd_pays"] = pays
-    cid = b"0123456789abcdef"
-    tok = tc.seal_call_token(cs, ty, sc, isc, cid, sid, b"k", b"a", created)
+    want = created.to_bytes(8, "little")
+    if use_clock:
+        # the mint functions read the clock themselves
+        state = tc.StateBase(b"\xffst")
+        t1, _sb = tc.mint_cursor_token(state, tc.StateBase, _CID, b"k", None)
+        t2, cid2, _cs = tc.mint_call_token(None, tc.FakeSchema(b"S:o"), tc.FakeSchema(b"S:i"), b"k", None, "sid")
+        return t1.payload[1:9] == want and t1.payload[9:25] == _CID and t2.payload[1:9] == want and t2.payload[9:25] == cid2
+    t1 = tc.seal_cursor_token(b"st", _CID, b"k", b"a", created)
+    t2 = tc.seal_call_token(b"c", "T", b"s", b"i", _CID, "sid", b"k", b"a", created)
+    return t1.payload[:1] == st._CODEC_RAW and t1.payload[1:9] == want and t1.payload[9:25] == _CID and t2.payload[1:9] == want and t2.payload[9:25] == _CID
+
+
+# ---------------------------------------------------------------------------
+# (d) resolution order
+# ---------------------------------------------------------------------------
+
+
+class _CS(tc.CallStateBase):
+    pass
+
+
+class _SA(tc.StateBase):
+    CALL_STATE_TYPE = _CS
+
+
+class _Impl:
+    n = 0
+
+    def m(self):  # type: ignore[no-untyped-def]
+        _Impl.n += 1
+        k = _Impl.n
+        return tc.StreamResult(_SA(b"\xffstate%d" % k), _CS(b"cs%d" % k), tc.FakeSchema(b"S:out%d" % k), tc.FakeSchema(b"S:in%d" % k))
+
+
+_IDS = [
+    None,
+    AuthContext(domain="x", authenticated=False, principal="p"),
+    AuthContext(domain="d", authenticated=True, principal="p"),
+    AuthContext(domain="", authenticated=True, principal="anonymous"),
+]
+_KEY = b"server-key"
+_TTL = 50
+_USER_EVENTS = ("state.deserialize", "state.deserialize_compact", "bind_call_state", "rehydrate", "on_cancel", "read_schema", "call_state.deserialize")
+_CALL_EVENTS = ("read_schema", "call_state.deserialize")
+
+
+def _relabel(box: tc.Box, version: int) -> tc.Box:
+    """Attacker capability: the envelope's version byte is outside the tag."""
+    return tc.Box(box.payload, box.key, box.aad, version)
+
+
+def _foreign(box: tc.Box) -> tc.Box:
+    """The same content sealed by a server holding another key."""
+    return tc.Box(box.payload, b"other-key", box.aad, box.version)
+
+
+class _Lazy:
+    """A presented call token chosen by a symbolic selector only when the code looks at it."""
+
+    def __init__(self, sel: int, options: list) -> None:
+        self.sel = sel
+        self.options = options
+
+    def resolve(self):  # type: ignore[no-untyped-def]
+        for k in range(len(self.options)):
+            if self.sel == k:
+                return self.options[k]
+        raise AssertionError
+
+
+class _B64Lazy(type(tc.B64)):  # type: ignore[misc]
+    def b64decode(self, token, validate=False):  # type: ignore[no-untyped-def]
+        if isinstance(token, _Lazy):
+            token = token.resolve()
+        return super().b64decode(token, validate=validate)
+
+
+_B64L = _B64Lazy()
+_open_call_lazy = reglobalize(st._open_call_token, crypto=tc.AEAD, base64=_B64L, _unpack_plaintext=tc.unpack_plaintext, time=tc.TIME, struct=tc.STRUCT, _read_segment=tc.read_segment)
+_resolve_call_lazy = reglobalize(aps._resolve_call_from_token, _open_call_token=_open_call_lazy, secrets=tc.SECRETS, pa=tc.PA)
+_unpack_lazy = reglobalize(
+    aps._unpack_and_recover_state,
+    _open_cursor_token=tc.open_cursor_token,
+    time=tc.TIME,
+    _resolve_call_from_token=_resolve_call_lazy,
+    _deserialize_state_bytes=tc.deserialize_state_bytes,
+)
+
+
+def _call_unpack(app, token, call_token, state_info, auth, method):  # type: ignore[no-untyped-def]
+    if tc._takes(aps._unpack_and_recover_state, "method_name"):
+        return _unpack_lazy(app, token, call_token, state_info, auth, method_name=method)
+    return _unpack_lazy(app, token, call_token, state_info, auth)
+
+
+_GARBAGE = tc.RealWorld.GARBAGE
+_SIG_CUR = "State token signature verification failed"
+_SIG_CALL = "Call token signature verification failed"
+
+
+def _expected(i1: int, r: int, warm: bool, tok_sel: int, call_present: bool, call_sel_fn, dt: int) -> tuple:  # type: ignore[no-untyped-def]
+    """Specification of the outcome: ('ok', k) = served with stream k's state, or ('err', message).
+
+    Streams 1 (identity i1) and 2 (requester's own) were opened at t=100 with ttl=_TTL; the request
+    arrives at t = 100 + dt.  Cursor slot: 0 cur1, 1 cur2, 2 call1, 3 call2 relabelled as
+    cursor, 4 cur2 under a foreign key, 5 garbage.  Call slot: 0 call1, 1 call2, 2 cur2, 3 cur2 relabelled as
+    call token, 4 call2 under a foreign key, 5 garbage, 6 cur1.
+    """
+    same1 = tc.real_identity(_IDS[i1]) == tc.real_identity(_IDS[r])
+    if tok_sel == 0 and same1:
+        k = 1
+    elif tok_sel == 1:
+        k = 2
+    elif tok_sel == 5:
+        return ("err", "Malformed state token")
+    else:
+        return ("err", _SIG_CUR)
+    if dt > _TTL:
+        return ("err", "State token expired")
+    if warm and dt < _TTL:
+        return ("ok", k)  # cache hit: the call token is not consulted
+    if not call_present:
+        return ("err", "Missing call token in exchange request")
+    call_sel = call_sel_fn()  # only now does the call slot matter
+    if call_sel == 5:
+        return ("err", "Malformed call token")
+    if call_sel == 1 or (call_sel == 0 and same1):
+        # a genuine call token of the requester
+        return ("ok", k) if call_sel == (0 if k == 1 else 1) else ("err", "State token does not belong to the supplied call token")
+    return ("err", _SIG_CALL)
+
+
+def _scenario(i1: int, r: int, warm: bool):  # type: ignore[no-untyped-def]
+    """Two streams of method m: stream 1 opened by identity i1, stream 2 by the requester r, at t=100."""
+    tc.reset(now=100)
+    _Impl.n = 0
+    srv = tc.FakeServer(_Impl(), {"m": tc.MethodInfo("m")})
+    app = tc.FakeApp(srv, {"m": _SA}, _KEY, _TTL, 8 if warm else 0)
+    md1 = tc.do_init(app, "m", _IDS[i1])
+    md2 = tc.do_init(app, "m", _IDS[r])
+    return app, (md1[tc.STATE_KEY], md1[tc.CALL_STATE_KEY]), (md2[tc.STATE_KEY], md2[tc.CALL_STATE_KEY])
+
+
+def _pick_concrete(sel: int, n: int) -> int:
+    for k in range(n):
+        if sel == k:
+            return k
+    raise AssertionError
+
+
+def _resolution_check(i1: int, r: int, warm: bool, tok_sel: int, call_present: bool, call_sel: int, dt: int) -> bool:
+    i1, r, tok_sel = _pick_concrete(i1, 4), _pick_concrete(r, 4), _pick_concrete(tok_sel, 6)
+    app, (cur1, call1), (cur2, call2) = _scenario(i1, r, warm)
+    auth = _IDS[r]
+    cursor_slot = [cur1, cur2, call1, _relabel(call2, st._CURSOR_TOKEN_VERSION), _foreign(cur2), _GARBAGE][tok_sel]
+    call_opts = [call1, call2, cur2, _relabel(cur2, st._CALL_TOKEN_VERSION), _foreign(call2), _GARBAGE, cur1]
+    call_slot = _Lazy(call_sel, call_opts) if call_present else None
+    del tc.LOG[:]
+    tc.HOLD["now"] = 100 + dt
+    aad_r, caad_r = st._compute_aad(auth), st._compute_call_aad(auth)
+    err = None
+    out = None
     try:
-        r = tc.open_call_token(tok, b"k", b"a", 0)
-    except Exception:
+        out = _call_unpack(app, cursor_slot, call_slot, _SA, auth, "m")
+    except Exception as e:  # noqa: BLE001
+        err = tc.http_error_info(e)
+        if err is None or err[0] != 400:
+            return False
+    log = list(tc.LOG)
+    # --- order: which opens happened, under which AAD, before any user-visible work
+    first_cur = -1
+    first_call = -1
+    for n, ev in enumerate(log):
+        if ev[0] == "open":
+            if ev[1] == st._CURSOR_TOKEN_VERSION:
+                if ev[2] != aad_r:
+                    return False  # a cursor opened under an AAD that is not the requester's
+                if ev[3] and first_cur < 0:
+                    first_cur = n
+            elif ev[1] == st._CALL_TOKEN_VERSION:
+                if ev[2] != caad_r:
+                    return False
+                if ev[3] and first_call < 0:
+                    first_call = n
+            else:
+                return False
+        elif ev[0] in _USER_EVENTS:
+            if first_cur < 0:
+                return False  # work before the cursor token was authenticated
+            if ev[0] in _CALL_EVENTS and first_call < 0:
+                return False  # call token contents parsed before it was authenticated
+    # --- decision
+    want = _expected(i1, r, warm, tok_sel, call_present, lambda: _pick_concrete(call_sel, 7), dt)
+    if want[0] == "err":
+        # a rejected request never reaches deserialisation, binding or rehydration
+        return err == (400, want[1]) and not any(ev[0] in ("state.deserialize", "state.deserialize_compact", "bind_call_state", "rehydrate") for ev in log)
+    if err is not None:
         return False
-    return r == (cs, ty, sc, isc, cid, sid)
+    k = want[1]
+    state_obj, resolved, call_id, state_bytes = out
+    want_state = b"\xffstate%d" % k
+    return (
+        type(state_obj) is _SA
+        and state_obj.payload == want_state
+        and state_bytes == want_state
+        and resolved.stream_id == "sid%d" % (2 * k - 1)
+        and resolved.call_state.payload == b"cs%d" % k
+        and resolved.output_schema == tc.FakeSchema(b"S:out%d" % k)
+        and state_obj.call_state is resolved.call_state
+    )
+
+
+_D_STUBS = [*tc.TOKEN_STUBS, *tc.DISPATCH_STUBS]
+
+
+def _replay_resolution(warm: bool):  # type: ignore[no-untyped-def]
+    def run(args: dict) -> str | None:
+        i1, r, tok_sel, call_present, call_sel, dt = args["i1"], args["r"], args["tok_sel"], args["call_present"], args["call_sel"], args["dt"]
+        want = _expected(i1, r, warm, tok_sel, call_present, lambda: call_sel, dt)
+        with tc.RealWorld({"m": tc.RealStateA}, _KEY, _TTL, 8 if warm else 0, now=100) as w, tc.RealWorld({"m": tc.RealStateA}, b"other-key", _TTL, 0, now=100) as other:
+            s1 = w.init("m", _IDS[i1])
+            s2 = w.init("m", _IDS[r])
+            f2 = other.init("m", _IDS[r])
+            cursor = [s1["cursor"], s2["cursor"], s1["call"], w.relabel(s2["call"], st._CURSOR_TOKEN_VERSION), f2["cursor"], w.GARBAGE][tok_sel]
+            call = [s1["call"], s2["call"], s2["cursor"], w.relabel(s2["cursor"], st._CALL_TOKEN_VERSION), f2["call"], w.GARBAGE, s1["cursor"]][call_sel] if call_present else None
+            w.clock.now = 100 + dt
+            got = w.unpack("m", _IDS[r], cursor, call)
+        if want[0] == "err":
+            if got[0] == "err" and got[1] == 400 and got[2] == want[1]:
+                return None
+            return f"request that must be rejected with 400 {want[1]!r} gave {got[:3]!r} (requester {_IDS[r]!r}, stream-1 owner {_IDS[i1]!r}, cursor slot {tok_sel}, call slot {call_sel if call_present else None}, warm={warm})"
+        sk = (s1, s2)[want[1] - 1]
+        if got[0] == "ok" and got[2].stream_id == sk["stream_id"] and got[2].call_state.tag == sk["tag"]:
+            return None
+        return f"request that must be served with stream {want[1]} gave {got[:3]!r}"
+
+    return run
+
+
+@cond(q=60, t=300, stubs=_D_STUBS, encoded=[aps._unpack_and_recover_state, aps._resolve_call_from_token, st._CallStateCache.get, st._CallStateCache.put],
+      bound="cold worker (cache capacity 0): 4x4 identities, 6 cursor-slot x (absent + 7) call-slot presentations, request any number of seconds >= 0 after /init (ttl 50)",
+      replay=_replay_resolution(False), signature=lambda a, c: "C12:resolution:cold")
+def resolution_order_cold_cache(i1: int, r: int, tok_sel: int, call_present: bool, call_sel: int, dt: int) -> bool:
+    """
+    pre: 0 <= i1 <= 3 and 0 <= r <= 3 and 0 <= tok_sel <= 5 and 0 <= call_sel <= 6 and 0 <= dt
+    post: _
+    """
+    return _resolution_check(i1, r, False, tok_sel, call_present, call_sel, dt)
+
+
+@cond(q=60, t=300, stubs=_D_STUBS, encoded=[aps._unpack_and_recover_state, aps._resolve_call_from_token, st._CallStateCache.get, st._CallStateCache.put],
+      bound="worker whose cache was warmed by both /init calls: same space as the cold item",
+      replay=_replay_resolution(True), signature=lambda a, c: "C12:resolution:warm")
+def resolution_order_warm_cache(i1: int, r: int, tok_sel: int, call_present: bool, call_sel: int, dt: int) -> bool:
+    """
+    pre: 0 <= i1 <= 3 and 0 <= r <= 3 and 0 <= tok_sel <= 5 and 0 <= call_sel <= 6 and 0 <= dt
+    post: _
+    """
+    return _resolution_check(i1, r, True, tok_sel, call_present, call_sel, dt)
+
+
+# ---------------------------------------------------------------------------
+# (e) crypto.seal_bytes / open_bytes envelope over an ideal backend primitive
+# ---------------------------------------------------------------------------
+
+_BACKEND: list = []  # (ciphertext+tag, payload, key, aad, nonce)
+
+
+def _ideal_seal(payload, key, aad, nonce):  # type: ignore[no-untyped-def]
+    ct = bytes([0xC0 + len(_BACKEND)]) + b"c" * (len(payload) + crypto._TAG_LEN - 1)
+    _BACKEND.append((ct, payload, key, aad, nonce))
+    return ct
+
+
+def _ideal_open(body, key, aad, nonce):  # type: ignore[no-untyped-def]
+    for ct, payload, k, a, n in _BACKEND:
+        if body == ct and key == k and aad == a and nonce == n:
+            return payload
+    raise crypto.SealError("token verification failed")
+
+
+_ENV_STUBS = [
+    "_seal/_open (XChaCha20-Poly1305 backend) := ideal: _open returns the payload iff (ciphertext+tag, key, aad, nonce) are exactly those of a previous _seal, else SealError",
+    "normalize_key := injective (SHA-256 collision freedom)",
+    "os.urandom := fresh nonce",
+]
+_env_seal = reglobalize(crypto.seal_bytes, _seal=_ideal_seal, os=tc.OSRAND, normalize_key=lambda k: (b"nk", k))
+_env_open = reglobalize(crypto.open_bytes, _open=_ideal_open, normalize_key=lambda k: (b"nk", k))
+
+
+def _tamper(good: bytes, mode: int, pos: int, val: int, version2: int) -> bytes:
+    """0 untouched, 1 version byte relabelled, 2 one byte substituted, 3 truncated to pos bytes, 4 one byte appended."""
+    if mode == 0:
+        return good
+    if mode == 1:
+        return bytes([version2]) + good[1:]
+    if mode == 2:
+        for k in range(len(good)):
+            if pos == k:
+                return good[:k] + bytes([val]) + good[k + 1 :]
+        return good
+    if mode == 3:
+        for k in range(len(good)):
+            if pos == k:
+                return good[:k]
+        return good
+    return good + bytes([val])
+
+
+def _replay_envelope(args: dict) -> str | None:
+    p, k, a, v = args["payload"], b"k1", b"a1", st._CURSOR_TOKEN_VERSION
+    if args["mode"] >= 2:
+        args = dict(args, same_key=True, same_aad=True, same_version=True)
+    args = dict(args, version2=v if args["same_version"] else st._CALL_TOKEN_VERSION)
+    key2, aad2 = (k if args["same_key"] else b"k2"), (a if args["same_aad"] else b"a2")
+    good = crypto.seal_bytes(p, k, aad=a, version=v)
+    tok = _tamper(good, args["mode"], args["pos"], args["val"], args["version2"])
+    try:
+        got = crypto.open_bytes(tok, key2, aad=aad2, version=args["version2"])
+    except crypto.SealError:
+        got = None
+    except Exception as e:  # noqa: BLE001
+        return f"open_bytes raised {e!r} instead of SealError"
+    want = len(tok) == len(good) and tok[1:] == good[1:] and tok[0] == args["version2"] and key2 == k and aad2 == a
+    if want and got != p:
+        return f"genuine envelope did not open: {got!r}"
+    if not want and got is not None:
+        return f"open_bytes accepted an envelope it did not seal (mode {args['mode']}, pos {args['pos']}) under version {args['version2']}"
+    return None
+
+
+@cond(q=60, t=200, stubs=_ENV_STUBS, encoded=[crypto.seal_bytes, crypto.open_bytes], bound="payload <= 2 bytes, same/other version byte, same/other key and aad; envelope untouched / relabelled / any one byte substituted / any truncation / one byte appended",
+      replay=_replay_envelope, signature=lambda a, c: "C12:envelope")
+def crypto_envelope_opens_exactly_what_it_sealed(payload: bytes, mode: int, pos: int, val: int, same_key: bool, same_aad: bool, same_version: bool) -> bool:
+    """
+    pre: len(payload) <= 2 and 0 <= mode <= 4 and 0 <= pos <= 43 and 0 <= val <= 255
+    post: _
+    """
+    tc.reset(now=0)
+    del _BACKEND[:]
+    payload = _flat(payload, 0, 2)
+    key, aad = b"k1", b"a1"
+    version = st._CURSOR_TOKEN_VERSION
+    mode = _pick_concrete(mode, 5)
+    if mode >= 2:
+        # a tampered envelope is presented in the attacker's best position: right key, aad and version
+        same_key = same_aad = same_version = True
+    version2 = version if same_version else st._CALL_TOKEN_VERSION
+    key2, aad2 = (key if same_key else b"k2"), (aad if same_aad else b"a2")
+    good = _env_seal(payload, key, aad=aad, version=version)
+    if len(good) != 1 + crypto._NONCE_LEN + len(payload) + crypto._TAG_LEN or good[0] != version:
+        return False
+    tok = _tamper(good, mode, pos, val, version2)
+    try:
+        got = _env_open(tok, key2, aad=aad2, version=version2)
+    except crypto.SealError:
+        got = None
+    except Exception:  # noqa: BLE001
+        return False
+    genuine = len(tok) == len(good) and tok[1:] == good[1:] and tok[0] == version2 and same_key and same_aad
+    if genuine:
+        return got == payload
+    return got is None
